@@ -210,31 +210,14 @@ func (r *Rediaron) BatchUpdate(ctx context.Context, data map[string]string) erro
 
 // BatchCreate is wrapper to adapt etcd batch create
 func (r *Rediaron) BatchCreate(ctx context.Context, data map[string]string) error {
-	create := func(pipe redis.Pipeliner) error {
-		for key, value := range data {
-			pipe.SetNX(ctx, key, value, 0)
-		}
-		return nil
-	}
-
-	cmds, err := r.cli.TxPipelined(ctx, create)
+	// MSETNX sets all the keys or none of them,
+	// just like an etcd txn guarded by version == 0
+	created, err := r.cli.MSetNX(ctx, data).Result()
 	if err != nil {
 		return err
 	}
-
-	for _, cmd := range cmds {
-		bc, ok := cmd.(*redis.BoolCmd)
-		if !ok {
-			return ErrBadCmdType
-		}
-
-		created, err := bc.Result()
-		if !created {
-			return ErrAlreadyExists
-		}
-		if err != nil {
-			return err
-		}
+	if !created {
+		return ErrAlreadyExists
 	}
 	return nil
 }
